@@ -1,0 +1,8 @@
+//go:build verif
+
+package catalog
+
+// Exports of unexported functions for the verification harness in /verif.
+// Compiled only with -tags verif; adds no behaviour.
+
+func VerifDecToMinDec(dec float64, latitude bool) string { return decToMinDec(dec, latitude) }
